@@ -216,7 +216,8 @@ Record PI (p : pstate) : Prop := {
   pi_proj : proj (p_log p) = firstn (p_seen p) (r_tr (p_r p));
   pi_cord : pcordered (p_log p);
   pi_once : forall k, (cnt (pstarts (p_log p)) k + cnt (job_tasks (p_jobs p)) k <= 1)%nat;
-  pi_sp : forall k, In k (pstarts (p_log p)) -> spent tasks (r_d (p_r p)) k
+  pi_sp : forall k, In k (pstarts (p_log p)) -> spent tasks (r_d (p_r p)) k;
+  pi_pt : PT (p_r p)
 }.
 
 Lemma spent_flags d k : spent tasks d k ->
@@ -335,10 +336,10 @@ Qed.
 (* the runner state of the main thread (thread flavour: shared) gets one more report *)
 Lemma PI_with_r p r' evs :
   PI p -> r_d r' = r_d (p_r p) -> r_tr r' = r_tr (p_r p) ++ evs ->
-  RI (r_d r') (r_tr r') ->
+  RI (r_d r') (r_tr r') -> PT r' ->
   PI (with_r p r').
 Proof.
-  intros HP0. pose proof HP0 as [A B C D E F G H]. intros Ed Et HR. split; simpl; auto.
+  intros HP0. pose proof HP0 as [A B C D E F G H]. intros Ed Et HR HPT. split; simpl; auto.
   - rewrite Ed. exact B.
   - intros x Hx. apply C. rewrite Et in Hx. rewrite firstn_app in Hx.
     replace (p_seen p - length (r_tr (p_r p)))%nat with 0%nat in Hx by lia. simpl in Hx. rewrite app_nil_r in Hx. exact Hx.
@@ -439,8 +440,9 @@ Proof.
              destruct (busy_tasks_set_nth _ _ _ _ Hx) as [H|H]; auto. inversion H; subst. exact Hk. }
            set (p2 := with_workers p1 (set_nth (p_workers p1) w (WBusy k)) (p_wtd p1)) in *.
            assert (H2 : PI (with_r p2 (start_task tasks (p_r p2) k))).
-           { apply (PI_with_r p2 _ [EExecute k]); auto. unfold start_task. simpl.
-             apply RI_exec; [apply (pi_ri _ HP)|apply (ready_deps _ _ Hk)]. }
+           { apply (PI_with_r p2 _ [EExecute k]); auto.
+             - unfold start_task. simpl. apply RI_exec; [apply (pi_ri _ HP)|apply (ready_deps _ _ Hk)].
+             - apply PT_start. apply (pi_pt _ HP). }
            exact H2.
         -- intros t w' [E|[]]. inversion E; subst. simpl.
            split; [intros x Hx; apply good_in_app; apply (proj2 Hk); exact Hx|]. split; [reflexivity|]. split; [exact Hk_ns|]. split; [exact Hk_nj|exact Hk_sp].
@@ -577,10 +579,10 @@ Lemma PI_with_r_gen p r' :
   (exists evs, r_tr r' = r_tr (p_r p) ++ evs) ->
   (forall k, In k (tasks_of p) -> st_of (r_d r') k <> SNone) ->
   (forall k, In k (live p) -> running_in (r_d r') k) ->
-  (forall k, spent tasks (r_d (p_r p)) k -> spent tasks (r_d r') k) ->
+  (forall k, spent tasks (r_d (p_r p)) k -> spent tasks (r_d r') k) -> PT r' ->
   PI (with_r p r').
 Proof.
-  intros HP0. pose proof HP0 as [A B C D E F G H]. intros HR HPre [evs Et] Hst Hrun Hsp. split; simpl; auto.
+  intros HP0. pose proof HP0 as [A B C D E F G H]. intros HR HPre [evs Et] Hst Hrun Hsp HPT. split; simpl; auto.
   - intros x Hx. apply C. rewrite Et in Hx. rewrite firstn_app in Hx.
     replace (p_seen p - length (r_tr (p_r p)))%nat with 0%nat in Hx by lia. simpl in Hx. rewrite app_nil_r in Hx. exact Hx.
   - intros k Hk. specialize (D k Hk). destruct D as [D1 D2]. split; simpl; auto.
@@ -614,7 +616,8 @@ Proof.
   assert (Hwd : forall (HPre : Pre d), PI (with_r p (with_d (p_r p) d))).
   { intros HPre. apply PI_with_r_gen; auto.
     - exists []. simpl. rewrite app_nil_r. reflexivity.
-    - intros k Hk. simpl. rewrite Hst. apply (proj1 (PI_ready_of p k HP Hk)). }
+    - intros k Hk. simpl. rewrite Hst. apply (proj1 (PI_ready_of p k HP Hk)).
+    - apply PT_with_d. apply (pi_pt _ HP). }
   destruct y as [k| | |path|].
   - destruct (handed_of_post tasks _ _ _ Hpost) as (HK & Hcur & Hns).
     destruct (select_task tasks continue_ always (with_d (p_r p) d) k) as [b r1] eqn:Es.
@@ -630,7 +633,8 @@ Proof.
         destruct (Hrund x Hx) as [A B]. split.
         + rewrite O1 by auto. exact A.
         + eapply spent_pc; [apply Pc1|]. exact B.
-      - intros z Hz. eapply spent_pc; [apply Pc1|]. apply Hspd. exact Hz. }
+      - intros z Hz. eapply spent_pc; [apply Pc1|]. apply Hspd. exact Hz.
+      - eapply PT_select; [|exact Es]. apply PT_with_d. apply (pi_pt _ HP). }
     destruct b.
     + inversion E; subst. split; auto. intros k0 Ek. inversion Ek; subst. split; [split; simpl; auto|].
       { intros x Hx. apply (select_true_good tasks continue_ always (with_d (p_r p) d) k0 r1 HR' HK Es x Hx). }
@@ -772,14 +776,16 @@ Proof.
       * rewrite Hsx by auto. exact A.
       * eapply spent_pc; [apply process_result_pc|]. exact B.
     + intros z Hz. eapply spent_pc; [apply process_result_pc|]. exact Hz.
+    + apply PT_process. apply (pi_pt _ HP).
   - unfold Runner.process_result. rewrite Hint. split; auto.
     apply (PI_update p); auto. intros x Hx. apply PI_ready_of; auto.
 Qed.
 
 Lemma PI_emit_main p evs :
-  PI p -> RI (r_d (p_r p)) (r_tr (p_r p) ++ evs) -> PI (with_r p (emit (p_r p) evs)).
+  PI p -> RI (r_d (p_r p)) (r_tr (p_r p) ++ evs) -> forallb (fun e => negb (is_pair_ev e)) evs = true ->
+  PI (with_r p (emit (p_r p) evs)).
 Proof.
-  intros HP HR. apply (PI_with_r p _ evs); auto.
+  intros HP HR Hpl. apply (PI_with_r p _ evs); auto. apply PT_emit_plain; auto. apply (pi_pt _ HP).
 Qed.
 
 Lemma main_loop_PI fuel : forall p e p', PI p -> main_loop fuel p = (e, p') -> PI p'.
@@ -838,8 +844,12 @@ Proof.
         * apply RI_exec; auto. intros x Hx. apply (Hl k); [left; reflexivity|exact Hx].
         * apply RI_emit; [exact HR|reflexivity|intros e0 x0 [<-|[]]; reflexivity]. }
   assert (H1 : PI (with_r p (emit (p_r p) evs))).
-  { apply PI_emit_main; auto. apply HRI; [|exact Hshape|apply (pi_ri _ HP)].
-    intros k Hk x Hx. apply (ready_deps _ _ (Hev k Hk)). exact Hx. }
+  { apply PI_emit_main; auto.
+    - apply HRI; [|exact Hshape|apply (pi_ri _ HP)].
+      intros k Hk x Hx. apply (ready_deps _ _ (Hev k Hk)). exact Hx.
+    - clear -Hshape. induction evs as [|e l IH]; simpl; auto.
+      rewrite IH by (intros e0 H0; apply Hshape; right; exact H0). rewrite andb_true_r.
+      destruct (Hshape e (or_introl eq_refl)) as [[k ->]|[k ->]]; reflexivity. }
   apply (PI_update (with_r p (emit (p_r p) evs))); auto.
   - intros x Hx. apply (PI_ready_of (with_r p (emit (p_r p) evs))); auto.
     unfold tasks_of in *. simpl in *. rewrite !in_app_iff in *. destruct Hx as [Hx|[Hx|Hx]]; auto. destruct Hx.
@@ -861,41 +871,48 @@ Proof.
   - constructor.
   - intros k. simpl. lia.
   - intros k [].
+  - apply PT_init.
 Qed.
 
 Lemma finish_PI p : PI p -> PI (sync (with_r p (finish (p_r p)))).
 Proof.
   intros HP. apply sync_PI. unfold finish. apply PI_emit_main; auto.
-  apply (finish_RI tasks). apply (pi_ri _ HP).
+  - apply (finish_RI tasks). apply (pi_ri _ HP).
+  - simpl. induction (rev (r_td (p_r p))); simpl; auto.
 Qed.
 
 (* the state the run ends in: the invariant holds, the whole runner trace is in the log, and the log
    returned is that log plus (possibly) the exception marker *)
 Definition marker_ok (mk : list pevent) : Prop :=
-  mk = [] \/ exists e, mk = [PE e] /\ is_fin e = false /\ is_exec e = false.
+  mk = [] \/ exists e, mk = [PE e] /\ is_fin e = false /\ is_exec e = false /\ is_pair_ev e = false.
 
 Lemma parallel_final fuel nprocs sched sel :
   exists p3 mk, PI p3 /\ p_seen p3 = length (r_tr (p_r p3)) /\ marker_ok mk /\
-    fst (run_parallel tasks wake_rank calc_rank continue_ always proc fuel nprocs sched sel) = p_log p3 ++ mk.
+    fst (run_parallel tasks wake_rank calc_rank continue_ always proc fuel nprocs sched sel) = p_log p3 ++ mk /\
+    let c := snd (run_parallel tasks wake_rank calc_rank continue_ always proc fuel nprocs sched sel) in
+    ((c = r_final (p_r p3) /\ mk = []) \/ In c [3; 4; 98; 99]).
 Proof.
   unfold run_parallel.
   destruct (start_procs fuel nprocs (p_init sched sel)) as [e1 p1] eqn:E1.
   pose proof (start_procs_PI fuel nprocs _ _ _ (PI_init sched sel) E1) as H1.
-  assert (Hfin : forall p2 mk, PI p2 -> marker_ok mk ->
+  assert (Hfin : forall p2 mk c, PI p2 -> marker_ok mk ->
+     ((c = r_final (p_r (sync (with_r p2 (finish (p_r p2))))) /\ mk = []) \/ In c [3; 4; 98; 99]) ->
      exists p3 mk', PI p3 /\ p_seen p3 = length (r_tr (p_r p3)) /\ marker_ok mk' /\
-       p_log (sync (with_r p2 (finish (p_r p2)))) ++ mk = p_log p3 ++ mk').
-  { intros p2 mk H2 Hm. exists (sync (with_r p2 (finish (p_r p2)))), mk.
-    split; [apply finish_PI; exact H2|]. split; [reflexivity|]. split; [exact Hm|reflexivity]. }
+       p_log (sync (with_r p2 (finish (p_r p2)))) ++ mk = p_log p3 ++ mk' /\
+       ((c = r_final (p_r p3) /\ mk' = []) \/ In c [3; 4; 98; 99])).
+  { intros p2 mk c H2 Hm Hc. exists (sync (with_r p2 (finish (p_r p2)))), mk.
+    split; [apply finish_PI; exact H2|]. split; [reflexivity|]. split; [exact Hm|]. split; [reflexivity|exact Hc]. }
   assert (M0 : marker_ok []) by (left; reflexivity).
-  assert (M1 : forall e, is_fin e = false -> is_exec e = false -> marker_ok [PE e]) by (intros e A B; right; exists e; auto).
-  destruct e1; try (cbv beta iota zeta delta [fst]; apply Hfin; [exact H1|first [exact M0|apply M1; reflexivity]]).
+  assert (M1 : forall e, is_fin e = false -> is_exec e = false -> is_pair_ev e = false -> marker_ok [PE e]) by (intros e A B C; right; exists e; auto).
+  destruct e1; try (cbv beta iota zeta delta [fst snd]; apply Hfin; [exact H1|first [exact M0|apply M1; reflexivity]|first [left; split; reflexivity|right; simpl; tauto]]).
   set (p1' := with_counts p1 (p_free p1) (length (p_workers p1))).
   assert (H1' : PI p1') by (apply with_counts_PI; exact H1).
   destruct (deadlocked p1').
-  { cbv beta iota zeta delta [fst]. apply Hfin; [apply terminate_PI; exact H1'|apply M1; reflexivity]. }
+  { cbv beta iota zeta delta [fst snd]. apply Hfin; [apply terminate_PI; exact H1'|apply M1; reflexivity|right; simpl; tauto]. }
   destruct (main_loop fuel p1') as [e2 p2] eqn:E2.
   pose proof (main_loop_PI fuel _ _ _ H1' E2) as H2.
-  destruct e2; cbv beta iota zeta delta [fst]; apply Hfin; auto; try (apply M1; reflexivity).
+  destruct e2; cbv beta iota zeta delta [fst snd]; apply Hfin; auto; try (apply M1; reflexivity);
+    try (right; simpl; tauto); try (left; split; reflexivity).
   apply drain_PI. apply join_all_PI. exact H2.
 Qed.
 
@@ -906,7 +923,7 @@ Proof. intros [->|(e & -> & _)]; reflexivity. Qed.
 Theorem parallel_dep_order fuel nprocs sched sel :
   pordered (fst (run_parallel tasks wake_rank calc_rank continue_ always proc fuel nprocs sched sel)).
 Proof.
-  destruct (parallel_final fuel nprocs sched sel) as (p3 & mk & HP & _ & Hm & ->).
+  destruct (parallel_final fuel nprocs sched sel) as (p3 & mk & HP & _ & Hm & -> & _).
   apply pordered_app_nostart; [apply (pi_ord _ HP)|apply marker_nostart; exact Hm].
 Qed.
 
@@ -914,7 +931,7 @@ Qed.
 Theorem parallel_contained fuel nprocs sched sel :
   pcordered (fst (run_parallel tasks wake_rank calc_rank continue_ always proc fuel nprocs sched sel)).
 Proof.
-  destruct (parallel_final fuel nprocs sched sel) as (p3 & mk & HP & _ & Hm & ->).
+  destruct (parallel_final fuel nprocs sched sel) as (p3 & mk & HP & _ & Hm & -> & _).
   apply pcordered_app_nostart; [apply (pi_cord _ HP)|apply marker_nostart; exact Hm].
 Qed.
 
@@ -922,7 +939,7 @@ Qed.
 Theorem parallel_exec_once fuel nprocs sched sel :
   NoDup (pstarts (fst (run_parallel tasks wake_rank calc_rank continue_ always proc fuel nprocs sched sel))).
 Proof.
-  destruct (parallel_final fuel nprocs sched sel) as (p3 & mk & HP & _ & Hm & ->).
+  destruct (parallel_final fuel nprocs sched sel) as (p3 & mk & HP & _ & Hm & -> & _).
   rewrite pstarts_app. replace (pstarts mk) with (@nil name) by (destruct Hm as [->|(e & -> & _)]; reflexivity).
   rewrite app_nil_r. apply (NoDup_count_occ' N.eq_dec). intros k Hk.
   pose proof (pi_once _ HP k) as Ho. apply (count_occ_In N.eq_dec) in Hk. unfold cnt in Ho. lia.
@@ -932,7 +949,7 @@ Qed.
 Theorem parallel_one_final fuel nprocs sched sel :
   fonce (proj (fst (run_parallel tasks wake_rank calc_rank continue_ always proc fuel nprocs sched sel))).
 Proof.
-  destruct (parallel_final fuel nprocs sched sel) as (p3 & mk & HP & Hs & Hm & ->).
+  destruct (parallel_final fuel nprocs sched sel) as (p3 & mk & HP & Hs & Hm & -> & _).
   rewrite proj_app, (pi_proj _ HP), Hs, firstn_all.
   apply fonce_app; [apply (ri_once _ _ _ (pi_ri _ HP))| |].
   - intros e x Hin Hf. destruct Hm as [->|(e0 & -> & Hnf & _)]; simpl in Hin; [contradiction|].
@@ -956,6 +973,30 @@ Proof.
   assert (Hin2 : In e' (proj log)).
   { rewrite E, proj_app. apply in_or_app. left. exact Hin'. }
   pose proof (fonce_two _ x e e' Ho Hin1 Hin2 Hf Hf') as ->. rewrite Hg' in Hbad. discriminate.
+Qed.
+
+(* the exit code of a parallel run is the same function of the failure reports as in the serial runner
+   (or one of the exception codes 3 / 4 / 98 hang / 99 fuel) *)
+Theorem parallel_exit_code fuel nprocs sched sel :
+  let res := run_parallel tasks wake_rank calc_rank continue_ always proc fuel nprocs sched sel in
+  snd res = code_of (proj (fst res)) \/ In (snd res) [3; 4; 98; 99].
+Proof.
+  cbv zeta. destruct (parallel_final fuel nprocs sched sel) as (p3 & mk & HP & Hs & Hm & E & Hc).
+  cbv zeta in Hc. destruct Hc as [[Hc ->]|Hc]; [left|right; exact Hc].
+  rewrite Hc, E, app_nil_r, (pi_proj _ HP), Hs, firstn_all. apply (pt_code _ (pi_pt _ HP)).
+Qed.
+
+(* every failure report of the main process is immediately preceded by remove_success of that task *)
+Theorem parallel_failure_removed fuel nprocs sched sel pre k kd post :
+  proj (fst (run_parallel tasks wake_rank calc_rank continue_ always proc fuel nprocs sched sel)) = pre ++ EFailure k kd :: post ->
+  exists pre', pre = pre' ++ [ERemove k].
+Proof.
+  destruct (parallel_final fuel nprocs sched sel) as (p3 & mk & HP & Hs & Hm & -> & _).
+  rewrite proj_app, (pi_proj _ HP), Hs, firstn_all. intros E.
+  assert (Hp : paired (r_tr (p_r p3) ++ proj mk)).
+  { apply paired_app_plain; [apply (pt_pair _ (pi_pt _ HP))|].
+    destruct Hm as [->|(e & -> & _ & _ & Hnp)]; simpl; auto. rewrite Hnp. reflexivity. }
+  eapply paired_failure_removed; eauto.
 Qed.
 
 End Par.
